@@ -1436,4 +1436,59 @@ theorem tv0_wf : tv0.Wf :=
   ⟨⟨⟨3, by decide, rfl⟩, ⟨3, by decide, rfl⟩⟩, by decide, ⟨4, ⟨56, 8⟩, by decide⟩⟩
 
 
+/-! ## Counted payloads, `usize` arithmetic of the capacity checks -/
+
+/-- `IV.stepRep` is `IV.step` on the replicated payload. -/
+theorem IV.stepRep_eq (s : IV α) (hw : s.xs.length ≤ s.cap) (sh : RepShape) (n : Nat) (v : α) :
+    s.stepRep sh n v = s.step (sh.toOp (List.replicate n v)) := by
+  cases sh with
+  | append => simp [IV.stepRep, RepShape.toOp, IV.step, IV.append]
+  | extendFromSlice => simp [IV.stepRep, RepShape.toOp, IV.step, IV.extendFromSlice]
+  | extendFromSliceCopy => simp [IV.stepRep, RepShape.toOp, IV.step, IV.extendFromSlice]
+  | extend hint =>
+    simp only [IV.stepRep, RepShape.toOp, IV.step]
+    by_cases h : s.xs.length + n ≤ s.cap
+    · rw [IV.extend_spec s _ (by simpa using h)]; simp [h]
+    · rw [IV.extend_exceed s _ hw (by simp; omega)]
+      have : min (s.cap - s.xs.length) n = s.cap - s.xs.length := by omega
+      simp [h, List.take_replicate, this]
+  | fromIter hint =>
+    simp only [IV.stepRep, RepShape.toOp, IV.step, IV.from_]
+    by_cases hh : hint ≤ s.cap
+    · by_cases hn : n ≤ s.cap
+      · have := IV.extend_spec (IV.new s.cap) (List.replicate n v) (by simp [IV.new]; omega)
+        simp [IV.new] at this
+        simp [hh, hn, IV.new, this]
+      · have := IV.extend_exceed (IV.new s.cap) (List.replicate n v) (by simp [IV.new]) (by simp [IV.new]; omega)
+        simp [IV.new] at this
+        simp [hh, hn, IV.new, this]
+    · simp [hh, IV.new]
+
+/-- `TV.stepRep` is `TV.step` on the replicated payload. -/
+theorem TV.stepRep_eq (s : TV α) (sh : RepShape) (n : Nat) (v : α) (h : ∀ k, sh ≠ .fromIter k) :
+    s.stepRep sh n v = s.step (sh.toOp (List.replicate n v)) := by
+  cases sh with
+  | append => simp [TV.stepRep, RepShape.toOp, TV.step, TV.append]
+  | extendFromSlice => simp [TV.stepRep, RepShape.toOp, TV.step, TV.extendFromSlice]
+  | extendFromSliceCopy => simp [TV.stepRep, RepShape.toOp, TV.step, TV.extendFromSlice]
+  | extend hint => simp [TV.stepRep, RepShape.toOp, TV.step, TV.extend]
+  | fromIter k => exact absurd rfl (h k)
+
+/-- The fixed check is the model's check, for EVERY `n` (no bound on the source's length). -/
+theorem capOk_checked_iff (len n cap : Nat) (h : len ≤ cap) :
+    capOk_checked len n cap ↔ len + n ≤ cap := by
+  unfold capOk_checked; omega
+
+/-- The wrapping check agrees with the model only below `2^64`. -/
+theorem capOk_wrapping_iff (len n cap : Nat) (h : len + n < U) :
+    capOk_wrapping len n cap ↔ len + n ≤ cap := by
+  unfold capOk_wrapping; rw [Nat.mod_eq_of_lt h]
+
+/-- The defect: with the wrapping check, a 7-slot vector holding 2 elements accepts
+    `usize::MAX` more. -/
+theorem capOk_wrapping_unfaithful : ¬ (∀ n, capOk_wrapping 2 n 7 → 2 + n ≤ 7) := by
+  intro h
+  have := h (2 ^ 64 - 1) (by decide)
+  omega
+
 end HipVerif.Vecs
